@@ -1429,6 +1429,17 @@ def m_bytes_split(ip, b, sep=None, maxsplit=-1):
     raise Unsupported('split on symbolic value')
 
 
+def m_str_isdigit(ip, s):
+    if isinstance(s, str):
+        return s.isdigit()
+    t = z3.simplify(s.t) if z3.is_seq(s.t) else s.t
+    if z3.is_app(t) and t.decl().name() == 'py_str_of_int':
+        used(ip, 'str(k).isdigit() <=> k >= 0 for python ints')
+        return ops.sbool(t.children()[0] >= 0)
+    used(ip, 's.isdigit() of an arbitrary string: some boolean (uninterpreted)')
+    return Sym(ip.ctx.fresh('isdigit', BoolSort), 'bool')
+
+
 def m_str_startswith(ip, s, p):
     if isinstance(s, str) and isinstance(p, str):
         return s.startswith(p)
@@ -1512,7 +1523,7 @@ def m_bytes_hex(ip, b):
 
 BYTES_METHODS = {'decode': m_bytes_decode, 'join': m_bytes_join, 'split': m_bytes_split, 'startswith': m_str_startswith,
                  'endswith': m_str_endswith, 'replace': m_str_replace, 'hex': m_bytes_hex}
-STR_METHODS = {'encode': m_str_encode, 'join': None, 'split': m_bytes_split, 'startswith': m_str_startswith,
+STR_METHODS = {'isdigit': m_str_isdigit, 'encode': m_str_encode, 'join': None, 'split': m_bytes_split, 'startswith': m_str_startswith,
                'endswith': m_str_endswith, 'replace': m_str_replace, 'upper': m_str_upper, 'lower': m_str_lower,
                'format': m_str_format, 'zfill': m_str_zfill, 'strip': m_str_strip, 'rstrip': _strip_model('rstrip'),
                'lstrip': _strip_model('lstrip')}
